@@ -655,3 +655,13 @@ package node_info
 //@   ensures [acceptedKeptOrOwn] forall t *pod_info.PodInfo :: t.AcceptedResource == old(t.AcceptedResource) || acceptedFresh(t)
 //@   ensures [wf] nodeWF(ni) && podsWF(ni)
 //@ end
+
+// C14 (establish): GPUs that a node offers through DRA ResourceSlices are added to Allocatable AND to Idle (so
+// "Idle = Allocatable minus what the pods hold" keeps holding: no pod has been added yet when the snapshot calls this);
+// a non-positive count changes nothing.
+//@ func (*NodeInfo).AddDRAGPUs
+//@   props C14 C01 C10
+//@   requires nodeShape(ni) && ni.Allocatable != ni.Idle
+//@   modifies ni.Allocatable.gpus, ni.Idle.gpus, ni.AllocatableVector[*], ni.IdleVector[*]
+//@   ensures [bothGrow] ni.Allocatable.gpus == old(ni.Allocatable.gpus) + ite(draGPUs > 0.0, draGPUs, 0.0) && ni.Idle.gpus == old(ni.Idle.gpus) + ite(draGPUs > 0.0, draGPUs, 0.0)
+//@ end
